@@ -45,7 +45,7 @@ func c07RegisterRules(r *Report, floors bool) {
 
 func checkC07(c *Ctx) {
 	r, p := c.R, c.P
-	r.Explanation = "Decides structural necessary conditions of C07 on the module functions statically reachable from the entry points of DESIGN Appendix B (plus every module function or closure whose value is created there: decode hooks, transformer callback, goroutine bodies). " +
+	r.Explanation = "Decides structural necessary conditions of C07 on the module functions reachable from the entry points of DESIGN Appendix B (the cipher.AEAD methods of crypto/aescbcaead are found by role) through static calls, calls through function values and module-declared interfaces whose targets are visible, plus every module function or closure whose value is created there (decode hooks, transformer callback, goroutine bodies). " +
 		"N1: explicit panic/log.Fatal/os.Exit/Goexit sites in scope ⊆ the documented misuse set. N2: unchecked type assertions are discharged by one of five reviewed idioms, else classified by where the operand's dynamic type comes from (third-party parser result with a documented type set, reflect.Value.Interface without a Type() test, a decode hook's data without any guard) and reported. " +
 		"N3: strings/bytes.Index* results used as slice bounds/indices are tested against -1 (or a dominating Has*/Contains fact implies a match). N4: constant and len-minus-constant indices/slice bounds are covered by a length lower bound from the lenbound engine (edge facts on the CFG incl. switch-case unions, s==\"const\", HasPrefix, err==nil summaries of module callees, API models, package-level literals, call-site minima for private functions). " +
 		"N5: make lengths and Repeat counts non-negative, non-constant divisors >= 1, CBC iv length tested. N6: the five-year bound of SpecSchedule.Next is on every cycle that leaves a field-search loop and every search loop advances t by a positive constant. " +
@@ -96,7 +96,7 @@ func checkC07(c *Ctx) {
 	r.Stats["dynamic_calls_resolved"] = len(fv.DynTargets)
 	r.Stats["dynamic_calls_unresolved_in_module"] = len(fv.Unresolved)
 	r.Stats["scope_functions"] = len(sc.List)
-	r.Stats["scope_entry_points"] = len(c07Entries)
+	r.Stats["scope_entry_points"] = len(entries)
 	keys := make([]string, 0, len(st.stats))
 	for k := range st.stats {
 		keys = append(keys, k)
